@@ -17,7 +17,7 @@ TRUSTED = ["fake bucket behind the real S3BasicFacade; fake clock substituted fo
 
 def generate(rng, tier):
     days = 4
-    grid = [h * H for h in range(24 * days)]
+    grid = [h * H for h in range(5, 24 * days)]      # one long-lived cassette: its first recording is NOT made at midnight
     extra = sorted(rng.randrange(0, days * 24 * H) for _ in range(24))
     # boundary instants: one microsecond around every midnight
     edges = [d * 24 * H + e for d in range(1, days) for e in (-1, 0, 1)]
